@@ -19,6 +19,7 @@ lhs/rhs/x may be scalars (RF / float) or tensors (ST / torch.Tensor) of equal sh
 from __future__ import annotations
 
 import math
+import os
 import random
 from fractions import Fraction as Q
 
@@ -304,6 +305,9 @@ def prove_scenario(scn, *, seed=0, crosscheck=2, max_paths=4000, timeout_ms=1000
                 except Infeasible:
                     continue
                 except Exception as e2:
+                    if not _raised_in_repo(e2):
+                        # no frame of the code under contract on the stack: the contract / harness itself is broken -> checker error, never a verdict
+                        raise RuntimeError("the scenario (not the code under contract) raised %s: %s\n%s" % (type(e2).__name__, e2, tb))
                     raise Refuted("the code under contract raises inside its precondition: %s: %s" % (type(e2).__name__, e2),
                                   witness={"env": env, "error": "%s: %s" % (type(e2).__name__, e2)},
                                   replay=_with_env(replay, env), confirmed=True)
@@ -536,6 +540,20 @@ def _refute_or_undecided(scn, mk, assumptions, rng, name, k, a, b, fns, replay, 
                 replay=_with_env(replay, env), confirmed=confirmed)
     raise Undecided("claim %s[%d]: normal forms differ but agree numerically at %d points (rewrite theory incomplete): %s vs %s"
                     % (name, k, pts, nf.show(a, 6), nf.show(b, 6)))
+
+
+def _raised_in_repo(exc):
+    """does the traceback of exc pass through code under contract (a file of the repository under test, or a piece that vt.loopcut /
+    a must-fail twin compiled verbatim from it)?"""
+    from .runner import REPO
+    tb = exc.__traceback__
+    root = os.path.realpath(REPO)
+    while tb is not None:
+        fn = tb.tb_frame.f_code.co_filename
+        if fn.startswith("<loopcut") or fn.startswith("<C16 twin") or fn.startswith("<vt twin") or os.path.realpath(fn).startswith(root + os.sep):
+            return True
+        tb = tb.tb_next
+    return False
 
 
 def scenario_ob(contract, name, tag, factory, args=(), clause="", funcs=(), seed=0, timeout=600, **kw):
